@@ -1,6 +1,9 @@
 Gen/GenChunk.vo Gen/GenChunk.glob Gen/GenChunk.v.beautified Gen/GenChunk.required_vo: Gen/GenChunk.v Lib/NumOps.vo
 Gen/GenChunk.vio: Gen/GenChunk.v Lib/NumOps.vio
 Gen/GenChunk.vos Gen/GenChunk.vok Gen/GenChunk.required_vos: Gen/GenChunk.v Lib/NumOps.vos
+Gen/GenProto.vo Gen/GenProto.glob Gen/GenProto.v.beautified Gen/GenProto.required_vo: Gen/GenProto.v Lib/NumOps.vo
+Gen/GenProto.vio: Gen/GenProto.v Lib/NumOps.vio
+Gen/GenProto.vos Gen/GenProto.vok Gen/GenProto.required_vos: Gen/GenProto.v Lib/NumOps.vos
 Lib/B64.vo Lib/B64.glob Lib/B64.v.beautified Lib/B64.required_vo: Lib/B64.v Lib/NumOps.vo
 Lib/B64.vio: Lib/B64.v Lib/NumOps.vio
 Lib/B64.vos Lib/B64.vok Lib/B64.required_vos: Lib/B64.v Lib/NumOps.vos
@@ -13,15 +16,24 @@ Model/Chunk.vos Model/Chunk.vok Model/Chunk.required_vos: Model/Chunk.v Lib/NumO
 Model/ChunkCases.vo Model/ChunkCases.glob Model/ChunkCases.v.beautified Model/ChunkCases.required_vo: Model/ChunkCases.v Lib/NumOps.vo Lib/B64.vo Gen/GenChunk.vo Model/Chunk.vo
 Model/ChunkCases.vio: Model/ChunkCases.v Lib/NumOps.vio Lib/B64.vio Gen/GenChunk.vio Model/Chunk.vio
 Model/ChunkCases.vos Model/ChunkCases.vok Model/ChunkCases.required_vos: Model/ChunkCases.v Lib/NumOps.vos Lib/B64.vos Gen/GenChunk.vos Model/Chunk.vos
+Model/Core.vo Model/Core.glob Model/Core.v.beautified Model/Core.required_vo: Model/Core.v Lib/NumOps.vo Gen/GenProto.vo
+Model/Core.vio: Model/Core.v Lib/NumOps.vio Gen/GenProto.vio
+Model/Core.vos Model/Core.vok Model/Core.required_vos: Model/Core.v Lib/NumOps.vos Gen/GenProto.vos
 Proofs/ChunkPartition.vo Proofs/ChunkPartition.glob Proofs/ChunkPartition.v.beautified Proofs/ChunkPartition.required_vo: Proofs/ChunkPartition.v Lib/NumOps.vo Gen/GenChunk.vo Model/Chunk.vo Spec/ChunkSpec.vo
 Proofs/ChunkPartition.vio: Proofs/ChunkPartition.v Lib/NumOps.vio Gen/GenChunk.vio Model/Chunk.vio Spec/ChunkSpec.vio
 Proofs/ChunkPartition.vos Proofs/ChunkPartition.vok Proofs/ChunkPartition.required_vos: Proofs/ChunkPartition.v Lib/NumOps.vos Gen/GenChunk.vos Model/Chunk.vos Spec/ChunkSpec.vos
 Proofs/ChunkSizes.vo Proofs/ChunkSizes.glob Proofs/ChunkSizes.v.beautified Proofs/ChunkSizes.required_vo: Proofs/ChunkSizes.v Lib/NumOps.vo Gen/GenChunk.vo Model/Chunk.vo Spec/ChunkSpec.vo Proofs/ChunkPartition.vo
 Proofs/ChunkSizes.vio: Proofs/ChunkSizes.v Lib/NumOps.vio Gen/GenChunk.vio Model/Chunk.vio Spec/ChunkSpec.vio Proofs/ChunkPartition.vio
 Proofs/ChunkSizes.vos Proofs/ChunkSizes.vok Proofs/ChunkSizes.required_vos: Proofs/ChunkSizes.v Lib/NumOps.vos Gen/GenChunk.vos Model/Chunk.vos Spec/ChunkSpec.vos Proofs/ChunkPartition.vos
+Proofs/CoreCons.vo Proofs/CoreCons.glob Proofs/CoreCons.v.beautified Proofs/CoreCons.required_vo: Proofs/CoreCons.v Lib/NumOps.vo Gen/GenProto.vo Model/Core.vo Spec/ProtoSpec.vo
+Proofs/CoreCons.vio: Proofs/CoreCons.v Lib/NumOps.vio Gen/GenProto.vio Model/Core.vio Spec/ProtoSpec.vio
+Proofs/CoreCons.vos Proofs/CoreCons.vok Proofs/CoreCons.required_vos: Proofs/CoreCons.v Lib/NumOps.vos Gen/GenProto.vos Model/Core.vos Spec/ProtoSpec.vos
 Props/C14.vo Props/C14.glob Props/C14.v.beautified Props/C14.required_vo: Props/C14.v Lib/NumOps.vo Gen/GenChunk.vo Model/Chunk.vo Spec/ChunkSpec.vo Proofs/ChunkPartition.vo Proofs/ChunkSizes.vo
 Props/C14.vio: Props/C14.v Lib/NumOps.vio Gen/GenChunk.vio Model/Chunk.vio Spec/ChunkSpec.vio Proofs/ChunkPartition.vio Proofs/ChunkSizes.vio
 Props/C14.vos Props/C14.vok Props/C14.required_vos: Props/C14.v Lib/NumOps.vos Gen/GenChunk.vos Model/Chunk.vos Spec/ChunkSpec.vos Proofs/ChunkPartition.vos Proofs/ChunkSizes.vos
 Spec/ChunkSpec.vo Spec/ChunkSpec.glob Spec/ChunkSpec.v.beautified Spec/ChunkSpec.required_vo: Spec/ChunkSpec.v Lib/NumOps.vo Gen/GenChunk.vo Model/Chunk.vo
 Spec/ChunkSpec.vio: Spec/ChunkSpec.v Lib/NumOps.vio Gen/GenChunk.vio Model/Chunk.vio
 Spec/ChunkSpec.vos Spec/ChunkSpec.vok Spec/ChunkSpec.required_vos: Spec/ChunkSpec.v Lib/NumOps.vos Gen/GenChunk.vos Model/Chunk.vos
+Spec/ProtoSpec.vo Spec/ProtoSpec.glob Spec/ProtoSpec.v.beautified Spec/ProtoSpec.required_vo: Spec/ProtoSpec.v Lib/NumOps.vo Gen/GenProto.vo Model/Core.vo
+Spec/ProtoSpec.vio: Spec/ProtoSpec.v Lib/NumOps.vio Gen/GenProto.vio Model/Core.vio
+Spec/ProtoSpec.vos Spec/ProtoSpec.vok Spec/ProtoSpec.required_vos: Spec/ProtoSpec.v Lib/NumOps.vos Gen/GenProto.vos Model/Core.vos
